@@ -52,6 +52,7 @@ def near_border(g, x, y):
 
 def check_region(g):
     """All checks with g as the subject: points, corner orders.  Returns (n, nontrivial, [violations])."""
+    H.reset_pkg_state()      # every input starts from the package's import-time module state
     obj = build(g)
     n = nt = 0
     viol = []
@@ -105,6 +106,7 @@ def check_region(g):
 
 def check_pair(go, gi):
     """containsRegion(outer=go, inner=gi) sound?  Returns (reported, violation|None)."""
+    H.reset_pkg_state()      # every input starts from the package's import-time module state
     oo, io = build(go), build(gi)
     rep = bool(oo.containsRegion(io))
     if not rep:
